@@ -134,6 +134,16 @@ CHECKS = {
             "- a genuine leak on today's tree, recorded as a known finding. Objects the caller places in the environment "
             "may expose further traversing methods; out of scope.",
             "DESIGN.md section 4 C19"),
+    "C18": ("table agreement between the two builders' type dispatch, value-vs-node analysis of to_obj/items, "
+            "constructor-arity vs children()-shape comparison for copy_from, structural check of the cycle guard",
+            "Static analysis: (R18a) json.build_tree's isinstance chain (bool before int) and BasicBuilder's registry map "
+            "each shared Python type to the same node class and store scalars unchanged; (R18b) every container's "
+            "to_obj() reaches children only through .to_obj() and items() overrides keep the (key, value) shape; (R18c) "
+            "every node class relying on TreeNode.copy_from has an __init__ matching the shape of children(); (R18d) "
+            "the iterative builder compares ancestors on its work stack by identity, over the whole stack, and raises or "
+            "appends the placeholder on every path, and recursive builders are guarded. Equality of round-tripped "
+            "values is NOT decided beyond these clauses.",
+            "DESIGN.md section 4 C18"),
 }
 
 NOT_YET = "check not built yet in this session (static rules designed in DESIGN.md; will be claimed once the rule runs clean)"
